@@ -17,6 +17,7 @@ import (
 	"sync"
 	"time"
 
+	"github.com/IrineSistiana/mosproxy/verif/internal/clock"
 	"github.com/IrineSistiana/mosproxy/verif/internal/dnsclient"
 	"github.com/IrineSistiana/mosproxy/verif/internal/fakeup"
 	"github.com/IrineSistiana/mosproxy/verif/internal/pki"
@@ -510,6 +511,7 @@ type xOpts struct {
 	Method  string            // DoH: GET or POST (default POST)
 	Header  map[string]string // DoH extra headers
 	TLS     *tls.Config       // override the client TLS config
+	CutTail int               // stream listeners: the last CutTail octets of the frame travel in a segment of their own, 3 ms later
 }
 
 // Exchange sends one query over the given listener kind on a fresh connection and waits for one response.
@@ -551,7 +553,17 @@ func (b *Bed) Exchange(kind string, wire []byte, o xOpts) xResult {
 			return xResult{Err: err}
 		}
 		defer c.Close()
-		ts, err := c.SendFrame(wire)
+		var ts int64
+		if o.CutTail > 0 && o.CutTail < len(wire) {
+			frame := dnsclient.Frame(wire)
+			ts = clock.Now()
+			if err = c.WriteRaw(frame[:len(frame)-o.CutTail]); err == nil {
+				time.Sleep(3 * time.Millisecond)
+				err = c.WriteRaw(frame[len(frame)-o.CutTail:])
+			}
+		} else {
+			ts, err = c.SendFrame(wire)
+		}
 		if err != nil {
 			return xResult{Err: err, TSend: ts}
 		}
